@@ -44,22 +44,34 @@ def prims():
            lambda ans, a, c, tag: lambda g: (LOG.append(("b0", tag, float(g))), g * (c + 0.3))[1],
            lambda ans, a, c, tag: lambda g: (LOG.append(("b1", tag, float(g))), g * a)[1])
     defjvp(b, lambda g, ans, a, c, tag: g * (c + 0.3), lambda g, ans, a, c, tag: g * a)
-    _P.update(u=u, b=b, LOG=LOG)
+
+    @primitive
+    def t(a, c, e, tag):       # three operands: exercises the general (>2 traced arguments) registration path
+        return a * c + 0.7 * e + 0.1 * a * e
+
+    defvjp(t,
+           lambda ans, a, c, e, tag: lambda g: (LOG.append(("t0", tag, float(g))), g * (c + 0.1 * e))[1],
+           lambda ans, a, c, e, tag: lambda g: (LOG.append(("t1", tag, float(g))), g * a)[1],
+           lambda ans, a, c, e, tag: lambda g: (LOG.append(("t2", tag, float(g))), g * (0.7 + 0.1 * a))[1])
+    defjvp(t, lambda g, ans, a, c, e, tag: g * (c + 0.1 * e), lambda g, ans, a, c, e, tag: g * a, lambda g, ans, a, c, e, tag: g * (0.7 + 0.1 * a))
+    _P.update(u=u, b=b, t=t, LOG=LOG)
     return _P
 
 
 # ------------------------------------------------------------------ graphs
 
-def build_program(ch, nmax):
+def build_program(ch, nmax, ternary=False):
     n = ch.choose("n", list(range(1, nmax + 1)))
     prog = []
     for i in range(n):
         opts = ["x", "k"] + list(range(i))
-        op = ch.choose("op%d" % i, ["u", "b"])
+        op = ch.choose("op%d" % i, ["u", "b", "t"] if (ternary and n <= 2) else ["u", "b"])
         if op == "u":
             prog.append(("u", ch.choose("a%d" % i, opts)))
-        else:
+        elif op == "b":
             prog.append(("b", ch.choose("a%d" % i, opts), ch.choose("c%d" % i, opts)))
+        else:
+            prog.append(("t", ch.choose("a%d" % i, opts), ch.choose("c%d" % i, opts), ch.choose("e%d" % i, opts)))
     out = ch.choose("out", list(range(n - 1, -1, -1)))
     return prog, out
 
@@ -73,11 +85,17 @@ def reference(prog, out, x):
             a = get(ins[1])
             vals.append(math.sin(a) + 0.5 * a)
             edges.append((ins[1], i, math.cos(a) + 0.5))
-        else:
+        elif ins[0] == "b":
             a, c = get(ins[1]), get(ins[2])
             vals.append(a * c + 0.3 * a)
             edges.append((ins[1], i, c + 0.3))
             edges.append((ins[2], i, a))
+        else:
+            a, c, e = get(ins[1]), get(ins[2]), get(ins[3])
+            vals.append(a * c + 0.7 * e + 0.1 * a * e)
+            edges.append((ins[1], i, c + 0.1 * e))
+            edges.append((ins[2], i, a))
+            edges.append((ins[3], i, 0.7 + 0.1 * a))
     dep = {}
     for i, ins in enumerate(prog):
         dep[i] = any(o == "x" or (isinstance(o, int) and dep[o]) for o in ins[1:])
@@ -105,8 +123,10 @@ def prog_src(prog, out):
     for i, ins in enumerate(prog):
         if ins[0] == "u":
             lines.append("v%d = u(%s)" % (i, nm(ins[1])))
-        else:
+        elif ins[0] == "b":
             lines.append("v%d = b(%s, %s)" % (i, nm(ins[1]), nm(ins[2])))
+        else:
+            lines.append("v%d = t(%s, %s, %s)" % (i, nm(ins[1]), nm(ins[2]), nm(ins[3])))
     lines.append("return v%d" % out)
     return "; ".join(lines)
 
@@ -114,19 +134,19 @@ def prog_src(prog, out):
 def graphs_factory(quick, seed):
     from autograd import make_jvp, make_vjp
     P = prims()
-    u, b, LOG = P["u"], P["b"], P["LOG"]
+    u, b, t3, LOG = P["u"], P["b"], P["t"], P["LOG"]
     nmax = 4 if quick else 5
     xs = [0.7 + 0.011 * (seed % 13), -0.45]
 
     def h(ch):
-        prog, out = build_program(ch, nmax)
+        prog, out = build_program(ch, nmax, ternary=True)
         x = ch.choose("x", xs if len(prog) <= 3 else xs[:1])
 
         def f(x):
             vals = []
             get = lambda o: x if o == "x" else (K if o == "k" else vals[o])
             for i, ins in enumerate(prog):
-                vals.append(u(get(ins[1]), i) if ins[0] == "u" else b(get(ins[1]), get(ins[2]), i))
+                vals.append(u(get(ins[1]), i) if ins[0] == "u" else (b(get(ins[1]), get(ins[2]), i) if ins[0] == "b" else t3(get(ins[1]), get(ins[2]), get(ins[3]), i)))
             return vals[out]
 
         obs = {}
@@ -152,7 +172,7 @@ def graphs_factory(quick, seed):
     def judge(ch, o):
         prog, out, x, obs = o
         val, dx, adj_live, dep = reference(prog, out, x)
-        feats = dict(n=len(prog), multi_edge=any(i[0] == "b" and i[1] == i[2] and isinstance(i[1], int) for i in prog),
+        feats = dict(n=len(prog), multi_edge=any(len(set(i[1:])) < len(i[1:]) and any(isinstance(o, int) for o in i[1:]) for i in prog if i[0] != "u"),
                      dead=len(adj_live) < sum(dep.values()))
         nontriv = bool(len(adj_live) >= 2 or feats["multi_edge"])
         res = dict(v=None, nontrivial=nontriv, outcome=(round(dx, 10),),
@@ -195,8 +215,10 @@ def check_log(prog, log, adj_live, dep):
         ins = prog[nd]
         if ins[0] == "u":
             expect = ["u"]
-        else:
+        elif ins[0] == "b":
             expect = (["b0"] if isdep(ins[1]) else []) + (["b1"] if isdep(ins[2]) else [])
+        else:
+            expect = [k for k, o in zip(("t0", "t1", "t2"), ins[1:]) if isdep(o)]
         got = sorted(k for k, _ in calls.get(nd, []))
         if got != sorted(expect):
             return ("rule-invocation-count", {"node": nd, "invoked": got}, expect)
